@@ -6,6 +6,15 @@ TRUST = ("TLC 1.8.0 and CommunityModules Json/IOUtils; harness/dy.py (float<->dy
          "harness/project.py (reads public attributes only); the behaviour replayer/recorder; libm for the logged "
          "transcendental certificates named in the evidence file")
 CHECKS = {
+ "C02": dict(
+   text="Every (ray, surface) event of real traces (random lenses over plane/conic/even-asphere/polynomial/Chebyshev shapes, mirrors, "
+        "tilts and decentres, ideal and catalogue media, skew and steep rays, all lens wavelengths; the 24 bundled samples) is judged by TLC "
+        "evaluating the polynomial laws of spec/RayStep.tla on the implementation's own numbers in exact dyadic arithmetic: on_surface "
+        "(implicit quadric + additive terms in the surface's decentred/tilted frame), collinear, opl, unit, vector Snell / reflection law, "
+        "half_space, total-internal-reflection and sticky-invalid clauses; a per-ray machine binds each event's incoming data to the previous "
+        "surface's record. Each run calibrates the spec: rational witnesses accepted, single-field corruptions rejected.",
+   technique="TLA+ law module (RayStep) evaluated by TLC on recorded traces (trace validation, exact dyadic arithmetic) + calibration by corrupted traces",
+   ref="6 (C02)"),
  "C01": dict(
    text="TLC model-checks the Lens abstract machine (spec/Lens.tla: append-only construction, set_* edits, pickups, wavelengths) "
         "exhaustively within small grids: invariants FirstAtZero/MediumChain/AtMostOneStop/OnePrimary and the frame conditions as "
